@@ -713,6 +713,10 @@ func (c *Ctx) scratchOf(obj types.Object) (int, bool) {
 // `stale := a && b; if x || stale` is evaluated like `if x || (a && b)`.
 var BoolLocalDef func(info *types.Info, id *ast.Ident) ast.Expr
 
+// PredicateBody, when set (by the rules package), maps a call of a same-package function whose
+// body is a single `return <boolean expression>` to that expression.
+var PredicateBody func(info *types.Info, call *ast.CallExpr) ast.Expr
+
 func (c *Ctx) atom(e ast.Expr, in []cst) (t, f []cst) {
 	if tv, ok := c.Info.Types[e]; ok && tv.Value != nil {
 		// constant condition
@@ -764,6 +768,18 @@ func (c *Ctx) atom(e ast.Expr, in []cst) (t, f []cst) {
 	// 2. a boolean local with one (pure) definition is evaluated as that definition
 	if id, ok := ast.Unparen(e).(*ast.Ident); ok && BoolLocalDef != nil && c.boolDepth < 3 {
 		if def := BoolLocalDef(c.Info, id); def != nil {
+			c.boolDepth++
+			t, f = c.cond(def, in)
+			c.boolDepth--
+			return t, f
+		}
+	}
+	// 2b. a call of a same-package predicate whose body is `return <expr>` is evaluated as that
+	// expression (c.hasAllBarriers() like len(c.srIDs) == 0). The callee's parameters are other
+	// objects than the caller's variables, so an atom that names a caller variable simply does not
+	// match there and the condition stays unknown.
+	if call, ok := ast.Unparen(e).(*ast.CallExpr); ok && PredicateBody != nil && c.boolDepth < 3 {
+		if def := PredicateBody(c.Info, call); def != nil {
 			c.boolDepth++
 			t, f = c.cond(def, in)
 			c.boolDepth--
